@@ -242,7 +242,8 @@ static ares_bool_t fake_addrinfo(const char *name, unsigned short port,
   ares_status_t               status = ARES_SUCCESS;
   ares_bool_t                 result = ARES_FALSE;
   int                         family = hints->ai_family;
-  if (family == AF_INET || family == AF_INET6 || family == AF_UNSPEC) {
+  /* An IPv4 literal can only answer a lookup that accepts IPv4 addresses */
+  if (family == AF_INET || family == AF_UNSPEC) {
     /* It only looks like an IP address if it's all numbers and dots. */
     size_t      numdots = 0;
     ares_bool_t valid   = ARES_TRUE;
